@@ -29,7 +29,7 @@ REAL = ['UARTSerializer', 'UARTDeserializer', 'ClockGenerationAndRecovery (Clock
 STUB = ['byte producer', 'byte consumer', 'software 8N1 receiver (oracle)']
 ASSUMPTIONS = ['consumer READY is never low for more than 3 bit times in a row (no flow control on a UART)',
                'bit period = 2*floor(ratio/2) system clocks, as the divider itself reports for odd ratios']
-PROBES = ['slow_link', 'clock_block_in_own_domain', 'deserializer_added_late_in_subblock', 'data_bus_not_8_bits', 'back_to_back', 'gap', 'phase', 'consumer_stall_while_waiting', 'odd_ratio', 'min_ratio', 'boundary_byte']
+PROBES = ['second_idle_receiver', 'slow_link', 'clock_block_in_own_domain', 'deserializer_added_late_in_subblock', 'data_bus_not_8_bits', 'back_to_back', 'gap', 'phase', 'consumer_stall_while_waiting', 'odd_ratio', 'min_ratio', 'boundary_byte']
 
 
 def gen(rs, tier, index):
@@ -58,7 +58,9 @@ def gen(rs, tier, index):
     lr = rs.get('layout')
     # layout: where the blocks live - all under the system; the deserializer instantiated inside an existing nested block
     # after the simulator was fetched; the clock block in a board block with a clock driver of its own (same clock)
-    return {'layout': lr.choice(['flat', 'flat', 'flat', 'late_nested_des', 'clk_own_driver']), 'vw': vw, 'ratio': ratio, 'bytes': data, 'phase': rng.randint(0, 3 * P), 'p_ready': rng.choice([1.0, 0.9, 0.5, 0.2]),
+    # second_link: another, idle receiver (its own line, held at the idle level, its own clock block) in the same system
+    return {'second_link': lr.random() < 0.25,
+            'layout': lr.choice(['flat', 'flat', 'flat', 'late_nested_des', 'clk_own_driver']), 'vw': vw, 'ratio': ratio, 'bytes': data, 'phase': rng.randint(0, 3 * P), 'p_ready': rng.choice([1.0, 0.9, 0.5, 0.2]),
             'cons_seed': rs.sub('cons'), 'perm_seed': rs.sub('perm')}
 
 
@@ -136,6 +138,15 @@ def run(scn, log, st):
         else:
             ClockGenerationAndRecovery(cpar, 'clkgen', tx, desync, tx_pulse, rx_sample, ratio * 1000, 1000)
             UARTDeserializer(hw, 'des', tx, rx_sample, d_ready, d_valid, d_v, desync)
+        v2 = None
+        if scn.get('second_link'):
+            tx2, txp2, rxs2, des2 = hw.wire('tx2'), hw.wire('tx_clk_pulse2'), hw.wire('rx_sample2'), hw.wire('desync2')
+            r2, v2, d2 = hw.wire('d_ready2'), hw.wire('d_valid2'), hw.wire('d_v2', 8)
+            py4hw.Constant(hw, 'idle_line', 1, tx2)
+            py4hw.Constant(hw, 'ready2', 1, r2)
+            ClockGenerationAndRecovery(hw, 'clkgen2', tx2, des2, txp2, rxs2, ratio * 1000, 1000)
+            UARTDeserializer(hw, 'des2', tx2, rxs2, r2, v2, d2, des2)
+            st.probe('second_idle_receiver')
         sim = hw.getSimulator()
     if ratio > 64:
         st.probe('slow_link')
@@ -184,6 +195,8 @@ def run(scn, log, st):
                     st.fault('gap')
         if d_valid.get() and r:
             presented.append((d_v.get(), t))
+        if v2 is not None and v2.get():
+            raise Violation('uart', 'uart:spurious', t, 'the second receiver, whose line idles, presented a byte at cycle %d' % t)
         if not r and len(accepted) > len(presented):
             st.probe('consumer_stall_while_waiting')
             st.fault('stall')
@@ -225,6 +238,8 @@ def shrink(scn):
         yield dict(scn, vw=8)
     if scn.get('layout', 'flat') != 'flat':
         yield dict(scn, layout='flat')
+    if scn.get('second_link'):
+        yield dict(scn, second_link=False)
     if scn['phase']:
         yield dict(scn, phase=0)
     if scn['p_ready'] != 1.0:
